@@ -187,6 +187,92 @@ def minority(ctx, p):
     return {"viol": viol, "observer_acks": acks, "stepped_down": not s.objs[ldr]._isLeader()}
 
 
+def releader(ctx, p):
+    """An observer that talks to ONE voter only; that voter leads, is cut off with the observer (which receives entries
+    that never commit), loses the leadership, gets its log repaired by the new leader and is elected AGAIN while the
+    observer has been on the same connection all the time: the observer must converge (its stale tail is replaced)."""
+    voters = ["v%d" % k for k in range(3)]
+    obs = ["o0"]
+    s = simmod.Sim(ctx.repo, voters, observers=obs, conf=dict(leaderFallbackTimeout=p["T"],
+                                                              appendEntriesBatchSizeBytes=p.get("B", 65536)), seed=p["seed"])
+    s.connect_all()
+    viol = []
+    ldr = s.elect(among=voters)
+    if ldr is None:
+        return {"viol": [], "skipped": True}
+    n2, n3 = [v for v in voters if v != ldr]
+    s.disconnect("o0", n2)
+    s.disconnect("o0", n3)
+    for k in range(3):
+        s.submit(ldr, 10 + k)
+    _alive_run(s, 8)
+    s.cut(ldr, n2)
+    s.cut(ldr, n3)
+    for k in range(p["stale"]):
+        s.submit(ldr, 100 + k)            # reach the observer only
+    _alive_run(s, 6, among=[ldr, "o0"])
+    stale_end = s.last_index("o0")
+    l2 = None
+    for _ in range(400):
+        _alive_run(s, 1, among=[n2, n3])
+        _alive_run(s, 1, among=[ldr, "o0"])
+        l2 = s.leader([n2, n3])
+        if l2 is not None and not s.objs[ldr]._isLeader():
+            break
+    if l2 is None or s.objs[ldr]._isLeader():
+        return {"viol": [], "skipped": True, "why": "no second leader"}
+    for k in range(p["fresh"]):
+        s.submit(l2, 200 + k)
+    _alive_run(s, 8, among=[n2, n3])
+    s.notice(ldr, n2)
+    s.notice(ldr, n3)
+    s.connect(ldr, n2)
+    s.connect(ldr, n3)
+    # ldr's stale tail is replaced by whoever leads the reunited voters; the observer still only reaches ldr
+    cur = None
+    for _ in range(600):
+        _alive_run(s, 1, among=voters + obs)
+        cur = s.leader(voters)
+        if cur is not None and len(set(s.last_index(v) for v in voters)) == 1 and \
+                all(s.objs[v].raftCommitIndex == s.objs[cur].raftCommitIndex for v in voters):
+            break
+    if cur is None:
+        return {"viol": [], "skipped": True, "why": "voters did not settle after the reunion"}
+    again = cur == ldr
+    if not again:
+        other = [v for v in voters if v not in (ldr, cur)][0]
+        s.disconnect(cur, ldr)
+        s.disconnect(cur, other)
+        # ldr times out first and is elected by `other`
+        for _ in range(60):
+            s.tick(ldr, 1.6)
+            while s.deliver(ldr, other):
+                pass
+            while s.deliver(other, ldr):
+                pass
+            if s.objs[ldr]._isLeader():
+                again = True
+                break
+    else:
+        other = n2
+    if not again:
+        return {"viol": [], "skipped": True, "why": "first leader not elected again"}
+    s.submit(ldr, 300)
+    steps = int(p.get("settle", 30.0) / 0.0625)
+    _alive_run(s, steps, among=[v for v in voters if (v, ldr) in s.up or v == ldr] + ["o0"])
+    _observer_checks(s, viol)
+    lo, oo = s.objs[ldr], s.objs["o0"]
+    if oo.raftLastApplied != lo.raftLastApplied or list(oo.log) != list(lo.log):
+        viol.append({"signature": "observer:not-converged",
+                     "what": "observer o0 stayed on one connection to %s, which led, lost (stale tail up to index %d on the observer) "
+                             "and regained the leadership: after %.0f s the leader has applied %d (state %r), the observer %d (state %r, log end %d)"
+                             % (ldr, stale_end, steps * 0.0625, lo.raftLastApplied, list(lo.log)[-4:], oo.raftLastApplied,
+                                list(oo.log)[-4:], s.last_index("o0"))})
+    if s.errors:
+        viol.append({"signature": "tick:exception-escapes", "what": "%s %s on %s" % (s.errors[0][1], s.errors[0][2], s.errors[0][0])})
+    return {"viol": viol, "stale_tail": stale_end > lo.raftLastApplied - 1 or p["stale"] > 0}
+
+
 def gen(ctx):
     rng = ctx.rng("c18_observers")
     out = []
@@ -196,6 +282,9 @@ def gen(ctx):
             if nv >= 4:
                 out.append({"kind": "minority", "nv": nv, "no": no, "keep": 1, "T": 1.0, "seed": 8})
             out.append({"kind": "churn", "nv": nv, "no": no, "steps": 30, "seed": 11 + no})
+    for stale in (10, 3, 0):
+        for fresh in (2, 5):
+            out.append({"kind": "releader", "nv": 3, "no": 1, "T": 0.5, "stale": stale, "fresh": fresh, "seed": 21 + stale})
     for _ in range(ctx.scale(500, 20000)):
         if rng.random() < 0.4:
             out.append({"kind": "minority", "nv": rng.choice([2, 3, 4, 5]), "no": rng.choice([1, 2, 3]), "keep": rng.choice([0, 1]),
@@ -206,11 +295,14 @@ def gen(ctx):
     return out
 
 
+KINDS = {"minority": minority, "churn": churn, "releader": releader}
+
+
 def run(ctx):
     logging.getLogger().setLevel(logging.CRITICAL + 1)
     t0 = time.time()
     viols = []
-    cov = {"churn": 0, "minority": 0, "observer_acks_in_minority": 0, "minority_stepdowns": 0, "commands_via_observer_success": 0,
+    cov = {"churn": 0, "minority": 0, "releader": 0, "observer_acks_in_minority": 0, "minority_stepdowns": 0, "commands_via_observer_success": 0,
            "skipped": 0, "by_observers": {}}
     distinct = set()
     ps = gen(ctx)
@@ -218,7 +310,7 @@ def run(ctx):
     for p in ps:
         if time.time() - t0 > ctx.budget_s * 0.6:
             break
-        r = (minority if p["kind"] == "minority" else churn)(ctx, p)
+        r = KINDS[p["kind"]](ctx, p)
         done += 1
         if r.get("skipped"):
             cov["skipped"] += 1
@@ -228,6 +320,8 @@ def run(ctx):
         if p["kind"] == "minority":
             cov["observer_acks_in_minority"] += r["observer_acks"]
             cov["minority_stepdowns"] += 1 if r["stepped_down"] else 0
+        elif p["kind"] == "releader":
+            pass
         else:
             cov["commands_via_observer_success"] += r["obs_success"]
         distinct.add(hashlib.sha1(json.dumps(p, sort_keys=True).encode()).hexdigest())
@@ -237,12 +331,14 @@ def run(ctx):
                 viols.append(v)
     res = {"cases": done, "distinct": len(distinct), "coverage": cov, "samples": ps[:2], "disagreements": [],
            "violations": viols[:6], "wall_s": round(time.time() - t0, 2)}
-    if cov["churn"] < 10 or cov["minority"] < 10 or cov["observer_acks_in_minority"] < 20 or cov["commands_via_observer_success"] < 5:
+    if cov["releader"] < 2:
+        res["inconclusive"] = "re-elected leader with an observer on the same connection not reached: %r" % (cov,)
+    elif cov["churn"] < 10 or cov["minority"] < 10 or cov["observer_acks_in_minority"] < 20 or cov["commands_via_observer_success"] < 5:
         res["inconclusive"] = "too little exercised: %r" % (cov,)
     return res
 
 
 def replay(ctx, violation):
     p = violation["replay"]["params"]
-    r = (minority if p["kind"] == "minority" else churn)(ctx, p)
+    r = KINDS[p["kind"]](ctx, p)
     return {"violated": any(v["signature"] == violation["signature"] for v in r.get("viol", [])), "violations": r.get("viol", [])[:6]}
